@@ -207,6 +207,138 @@ def oracle_dimsrange(c, out):
     return []
 
 
+def expected_eth(w, h, rx, ry):
+    return sorted((ex, ey) for ex in range(max(w, 0)) for ey in range(max(h, 0))
+                  if ((ex - rx) % 12, (ey - ry) % 12) in ETH)
+
+
+def eth_args(op):
+    return op[2:6] if op[0] == "eth_open" else op[1:5]
+
+
+def judge_history(c, out, full_of):
+    """Every operation of a history judged on its own.  full_of(op index) -> the complete list the judge
+    expects for the arguments of that operation (the oracle passes the tiling's list, the correspondence
+    passes the stateless model's list).  -> list of (key, what)."""
+    if out[0] != "ok":
+        return [("history", "a call sequence ended with %r" % (out,))]
+    taken = {}                                 # live generator -> (op index of its eth_open, what it yielded so far)
+    bad = []
+    for i, (op, r) in enumerate(zip(c["ops"], out[1])):
+        kind = op[0]
+        if not kind.startswith("eth_"):
+            continue
+        call = "%s%r (operation %d of the sequence %r)" % (kind, tuple(op[1:]), i, c["ops"][:i + 1])
+        if r[0] != "ok":
+            bad.append(("history-eth", "%s raised %r" % (call, r)))
+            continue
+        if kind == "eth_open":
+            taken[op[1]] = (i, [])
+            continue
+        if kind in ("eth_next", "eth_drain"):
+            src, sofar = taken[op[1]]
+        else:
+            src, sofar = i, []
+        want = [tuple(e) for e in full_of(src)]
+        if kind == "eth_in":
+            if r[1] != ((op[5], op[6]) in want):
+                bad.append(("history-eth", "%s = %r but the chip %s an Ethernet chip of the machine"
+                            % (call, r[1], "is" if (op[5], op[6]) in want else "is not")))
+            continue
+        got = [tuple(e) for e in r[1]]
+        sofar += got
+        if kind in ("eth_full", "eth_drain"):
+            if sorted(sofar) != sorted(want):
+                bad.append(("history-eth", "%s lists %d of the %d Ethernet chips of the machine (missing %r, extra %r)"
+                            % (call, len(sofar), len(want), sorted(set(want) - set(sofar))[:8],
+                               sorted(set(sofar) - set(want))[:8])))
+        else:
+            n = op[5] if kind in ("eth_take", "eth_break") else op[2]
+            ok = (len(set(sofar)) == len(sofar) and set(sofar) <= set(want)
+                  and len(got) == min(n, len(want) - (len(sofar) - len(got))))
+            if kind == "eth_break" and n == 0:
+                ok = ok or len(got) == min(1, len(want))          # the loop body runs once before the break
+            if not ok:
+                bad.append(("history-eth", "%s yields %r: not %d further distinct Ethernet chips of the machine %r"
+                            % (call, got, n, want[:12])))
+    return bad
+
+
+def oracle_history(c, out):
+    bad = judge_history(c, out, lambda i: expected_eth(*eth_args(c["ops"][i])))
+    if out[0] == "ok":
+        for i, (op, r) in enumerate(zip(c["ops"], out[1])):
+            if op[0] in ("local", "chip", "fpga"):
+                sub = oracle_point(dict(f=op[0], args=op[1:]), r)
+            elif op[0] == "dims":
+                sub = oracle_dims(dict(n=op[1]), r)
+            else:
+                continue
+            bad += [("history-" + k, "%s (operation %d of the sequence %r)" % (w, i, c["ops"][:i + 1])) for k, w in sub]
+    return bad
+
+
+def gen_histories(rng, tier):
+    """Sequences of calls in one interpreter: generators of spinn5_eth_coords cut at every position, `in`
+    tests, search loops with break, interleaved live generators with equal and different arguments, each
+    followed by full enumerations; lookups repeated with the same chip under different sizes and roots."""
+    hs = []
+    machines = [(24, 24), (12, 12), (36, 12), (20, 30), (8, 8), (48, 24), (13, 25)]
+    roots = [(rx, ry) for rx in range(12) for ry in range(12)]
+    rng.shuffle(roots)
+    fresh = iter(roots * 50)
+    for w, h in machines if tier == "quick" else machines + [(rng.randint(1, 48), rng.randint(1, 48)) for _ in range(40)]:
+        total = len(expected_eth(w, h, 0, 0)) + 2
+        ops = []
+        for cut in range(total + 1):                       # cut at every position, a fresh root each time ...
+            rx, ry = next(fresh)
+            how = ("eth_take", "eth_break")[cut % 2]
+            ops += [[how, w, h, rx, ry, cut], ["eth_full", w, h, rx, ry]]
+        hs.append(dict(k="history", ops=ops, cls="history-cuts"))
+        rx, ry = next(fresh)
+        ops = []
+        for cut in (1, 0, 2, total, 1):                    # ... and again and again on one machine
+            ops += [["eth_take", w, h, rx, ry, cut], ["eth_full", w, h, rx, ry], ["eth_full", w, h, rx, ry]]
+        hs.append(dict(k="history", ops=ops, cls="history-cuts"))
+        rx, ry = next(fresh)
+        want = expected_eth(w, h, rx, ry)
+        ops = []
+        for e in ([want[0], want[-1], want[len(want) // 2]] if want else []) + [(rx + 1, ry), (w + 5, h + 5), (-1, -1)]:
+            ops += [["eth_in", w, h, rx, ry, e[0], e[1]], ["eth_full", w, h, rx, ry]]
+            rx2, ry2 = next(fresh)
+            ops += [["eth_in", w, h, rx2, ry2, e[0], e[1]], ["eth_full", w, h, rx2, ry2], ["eth_in", w, h, rx2, ry2, e[0], e[1]]]
+        hs.append(dict(k="history", ops=ops, cls="history-in"))
+        (ax, ay), (bx, by) = next(fresh), next(fresh)
+        A, B = [w, h, ax, ay], [w, h, bx, by]
+        hs.append(dict(k="history", cls="history-interleaved", ops=[
+            ["eth_open", "g1"] + A, ["eth_open", "g2"] + A, ["eth_open", "g3"] + B,
+            ["eth_next", "g1", 2], ["eth_next", "g2", 1], ["eth_full"] + A, ["eth_next", "g3", 1],
+            ["eth_next", "g1", 1], ["eth_full"] + B, ["eth_drain", "g1"], ["eth_full"] + A,
+            ["eth_open", "g4"] + A, ["eth_next", "g4", 1], ["eth_drain", "g2"], ["eth_drain", "g3"],
+            ["eth_full"] + A, ["eth_drain", "g4"], ["eth_full"] + B]))
+    # lookups repeated with the same chip under different sizes and roots, mixed with the other functions
+    for _ in range(12 if tier == "quick" else 120):
+        x, y = rng.randrange(12), rng.randrange(12)
+        ops = []
+        for _ in range(14):
+            w, h = rng.choice([(12, 12), (24, 24), (24, 12), (36, 24), (8, 8), (20, 16)])
+            rx, ry = rng.choice([(0, 0), (0, 0), (3, 5), (11, 1), (4, 8), (13, 29)])
+            xx, yy = (x, y) if rng.random() < 0.7 else (x + 12, y)
+            pick = rng.random()
+            if pick < 0.4:
+                ops.append(["local", xx, yy, w, h, rx, ry])
+            elif pick < 0.6:
+                ops.append(["chip", xx, yy, rx, ry])
+            elif pick < 0.8:
+                ops.append(["fpga", xx, yy, rng.randrange(6), rx, ry])
+            elif pick < 0.9:
+                ops.append(["dims", rng.choice([3, 6, 9, 12, 18, 24, 36, 120, 0, 1, 2])])
+            else:
+                ops.append(["eth_full", w, h, rx, ry])
+        hs.append(dict(k="history", ops=ops + ops[:5], cls="history-lookups"))
+    return hs
+
+
 # ------------------------------------------------------------------ generators
 def gen_cases(rng, tier):
     cases = []
@@ -245,6 +377,7 @@ def gen_cases(rng, tier):
             else:
                 rx, ry = rng.randint(-30, 60), rng.randint(-30, 60)
             cases.append(dict(k="machine", w=w, h=h, rx=rx, ry=ry, cls="ragged"))
+    cases += gen_histories(rng, tier)
     # single calls: far, negative and degenerate arguments
     n_pt = 4000 if big else 400
     for i in range(n_pt):
@@ -377,7 +510,8 @@ def run(chk, args):
     else:
         cases = gen_cases(chk.rng, chk.tier)
     # implementation
-    cost = lambda c: c["w"] * c["h"] if c["k"] == "machine" else (3000 if c["k"] == "dimsrange" else 1)
+    cost = lambda c: c["w"] * c["h"] if c["k"] == "machine" else (3000 if c["k"] == "dimsrange" else
+                                                                  (len(c["ops"]) if c["k"] == "history" else 1))
     chunks, cur, acc = [], [], 0
     for c in cases:
         cur.append(c)
@@ -403,6 +537,12 @@ def run(chk, args):
         elif c["k"] == "point":
             bad = oracle_point(c, o)
             nontrivial = c["cls"] == "point"
+        elif c["k"] == "history":
+            chk.count("history-operations", len(c["ops"]))
+            for op in c["ops"]:
+                chk.count("history-op:" + op[0])
+            bad = oracle_history(c, o)
+            nontrivial = True
         elif c["k"] == "dimsrange":
             chk.count("board-counts-in-ranges", c["hi"] - c["lo"])
             bad = oracle_dimsrange(c, o)
@@ -437,6 +577,42 @@ def run(chk, args):
             if rest:
                 vals.update(zip(rest, chk.coq_eval(HEADER, [coq_expr(cases[i], outs[i]) for i in rest],
                                                    shard=max(400, (len(rest) + 23) // 24), name="calls")))
+            # histories: every operation is compared with the stateless model of that one call
+            hops = [(i, j) for i in range(len(cases)) if cases[i]["k"] == "history" and outs[i][0] == "ok"
+                    for j in range(len(cases[i]["ops"]))]
+            if hops:
+                def op_expr(op):
+                    if op[0] in ("eth_next", "eth_drain"):      # judged against the list of their eth_open
+                        return "spinn5_eth_coords 0 0 0 0"
+                    if op[0].startswith("eth_"):
+                        return "spinn5_eth_coords %s" % " ".join(zlit(a) for a in eth_args(op))
+                    if op[0] == "dims":
+                        return "standard_system_dimensions_f %s" % zlit(op[1])
+                    return coq_expr(dict(k="point", f=op[0], args=op[1:]), None)
+                hv = dict(zip(hops, chk.coq_eval(HEADER, [op_expr(cases[i]["ops"][j]) for i, j in hops],
+                                                 shard=max(400, (len(hops) + 11) // 12), name="history")))
+                h_bad = 0
+                for i in sorted(set(i for i, _ in hops)):
+                    c, o = cases[i], outs[i]
+                    chk.traces_validated += 1
+                    diffs = judge_history(c, o, lambda j: [list(p) for p in hv[(i, j)]])
+                    for j, (op, r) in enumerate(zip(c["ops"], o[1])):
+                        if not op[0].startswith("eth_"):
+                            sub = dict(k="dims", n=op[1]) if op[0] == "dims" else dict(k="point", f=op[0], args=op[1:])
+                            m, p = canon_model(sub, hv[(i, j)]), canon_impl(sub, r)
+                            if m != p:
+                                diffs.append(("history", "%r (operation %d of %r): model %r, implementation %r"
+                                              % (op, j, c["ops"][:j + 1], m, p)))
+                    if diffs:
+                        h_bad += 1
+                        if h_bad <= 3:
+                            chk.disagree("history: the implementation differs from the stateless model: " + diffs[0][1],
+                                         dict(case=c, observed=o))
+                if not h_bad:
+                    chk.oblige("correspondence:call-histories (%d sequences, %d operations: partially consumed, "
+                               "abandoned and interleaved spinn5_eth_coords generators followed by full enumerations, "
+                               "repeated lookups; every call equal to the stateless model)"
+                               % (len(set(i for i, _ in hops)), len(hops)), True)
             n_bad = 0
             for i, (c, o) in enumerate(zip(cases, outs)):
                 if i not in vals:
@@ -468,7 +644,10 @@ def run(chk, args):
         "%s with random roots, ragged machines %s with roots zero / in the cell / far away; every chip of every machine "
         "is judged (local Ethernet chip, on-board coordinate, all six links, Ethernet list) against a tiling built "
         "explicitly from the board description; single calls with coordinates up to 10^18, negative and zero "
-        "dimensions, link numbers outside 0..5; board counts %s. non-trivial = machine at least one board wide and "
+        "dimensions, link numbers outside 0..5; call histories in one interpreter (spinn5_eth_coords generators cut at "
+        "every position by next()/break, `in` tests, interleaved live generators with equal and different arguments, "
+        "each followed by full enumerations; repeated lookups of one chip under different sizes and roots), every "
+        "call judged on its own; board counts %s. non-trivial = machine at least one board wide and "
         "high, in-domain single call, or a positive multiple of 3 boards; distinct by hash of the input"
         % ((("96x12/60x60", "every w,h in 1..40") if chk.tier != "quick" else ("48x24/36x36", "38 sizes in 1..40"))
            + ("-12..90000 one by one, every multiple of 3 up to 3*10^6 in ranges, samples to 3*2^52" if chk.tier != "quick"
